@@ -41,6 +41,12 @@ any call -> TransportError).  That is a single-connection matter (C04 "headerles
 connection", C01 key socket-headerless-init-outcome-unobserved-until-first-read) outside what run_pipe composes call by
 call.  The controller reports a serve() that returns while its client is still connected as
 threaded-server:serve-ended-before-client-disconnected.
+First bind: RpcServer.serve binds the transport (RpcServer._notify_transport, one-shot on_serve_start hook) at the start of
+every connection.  The served implementation (harness/c41_driver.C41Impl) creates its worker store in that hook and kv
+programs put / get in it; on FRESH servers the hook is a scheduling point (it parks until the controller lets it finish)
+and 2-3 connections arrive while the first bind is still running.  Oracle unchanged (results = alone-run); if the hook ran
+more than once for the one bind and a connection's results differ, the key is serve-start-hook-refired-under-live-connection
+(C42 owns "exactly once" itself; here it is the isolation consequence).
 The except/finally path of _handle (serve() raising) is exercised by an injected fault: the gauge wrapper raises after
 the inner serve() returned for chosen connections; their slots must be released all the same.
 """
@@ -339,7 +345,7 @@ def run(ctx: Any) -> None:
     case_no = 0
 
     def one_case(name: str, kind: str, maxc: int | None, progs: dict[int, dict[str, Any]], scripts: list[list[list[Any]]], fixed: list[int] | None,
-                 serve_raises: tuple[int, ...] = ()) -> None:
+                 serve_raises: tuple[int, ...] = (), first_bind: int = 0) -> None:
         nonlocal case_no
         case_no += 1
         h = handle(kind, maxc)
@@ -347,7 +353,8 @@ def run(ctx: Any) -> None:
             # a connection hung on this server before (already reported): its slots / threads are in an unknown state
             ctx.tally("skipped", f"{kind}/{maxc}: server hung earlier")
             return
-        repl0 = {"scenario": name, "transport": kind, "max_connections": maxc, "programs": progs, "scripts": scripts}
+        repl0 = {"scenario": name, "transport": kind, "max_connections": maxc, "programs": progs, "scripts": scripts,
+                 "arrivals_during_first_bind": first_bind}
         # ---- the reference first: every connection script alone on the same server
         alone: list[list[list[list[Any]]]] = []
         for i, sc in enumerate(scripts):
@@ -364,7 +371,15 @@ def run(ctx: Any) -> None:
                 solo_cache[key] = rs["traces"][0]
                 solo_cases.setdefault(sk, (c_calls(progs, sc), c_traces(rs["traces"][0])))
             alone.append(solo_cache[key])
-        r = D.run_case(h, scripts, rng, f"k{case_no}", fixed_schedule=fixed, serve_raises=serve_raises)
+        if first_bind:
+            # a FRESH server whose on_serve_start (it creates the worker store the kv programs use) is a scheduling point:
+            # `first_bind` connections arrive while the hook of the very first bind is still running
+            hc = D.ServerHandle(kind, maxc, tmp, park_hook=True)
+            r = D.run_case(hc, scripts, rng, f"k{case_no}", fixed_schedule=fixed, serve_raises=serve_raises, arrivals_during_first_bind=first_bind)
+            ctx.tally("on_serve_start_runs_per_fresh_server", r["hook_runs"])
+        else:
+            hc = h
+            r = D.run_case(h, scripts, rng, f"k{case_no}", fixed_schedule=fixed, serve_raises=serve_raises)
         ctx.count("impl_runs")
         repl = {**repl0, "schedule": r["schedule"]}
         sched = r["schedule"]
@@ -382,7 +397,7 @@ def run(ctx: Any) -> None:
                 ctx.tally("call", c[0] + ("" if c[0] == "unary" else ":" + c[4]))
         # ---- anomalies of the run itself (hangs are observations, never harness hangs)
         if r["anomalies"]:
-            h.broken = True
+            hc.broken = True
             detail = {**repl, "serve_raises_injected_for": list(serve_raises), "gauge_events": r["gauge_events"], "phases_when_stopped": r["phases"],
                       "client_probes_after_the_hang": r["probes"]}
             named = False
@@ -422,8 +437,14 @@ def run(ctx: Any) -> None:
         # ---- oracle 3: same results as alone
         for i in range(len(scripts)):
             if r["traces"][i] != alone[i]:
-                ctx.violation("concurrent-trace-differs-from-solo-run", f"connection {i} observed something else than when served alone",
-                              {**repl, "connection": i, "concurrent": r["traces"][i], "alone": alone[i]})
+                if first_bind and r["hook_runs"] > 1:
+                    ctx.violation("serve-start-hook-refired-under-live-connection",
+                                  f"connection {i} observed something else than when served alone: on_serve_start ran {r['hook_runs']} times for one bind and "
+                                  "re-initialised the worker state under a connection that was already being served",
+                                  {**repl, "connection": i, "concurrent": r["traces"][i], "alone": alone[i], "on_serve_start_runs": r["hook_runs"]})
+                else:
+                    ctx.violation("concurrent-trace-differs-from-solo-run", f"connection {i} observed something else than when served alone",
+                                  {**repl, "connection": i, "concurrent": r["traces"][i], "alone": alone[i]})
         # ---- model input: the observed linearisation
         mc = "None" if maxc is None else f"(Some {maxc}%nat)"
         inp = f"({mc}, [{'; '.join(c_calls(progs, sc) for sc in scripts)}], {c_nats(sched)})"
@@ -444,15 +465,33 @@ def run(ctx: Any) -> None:
         kinds = [rp["transport"]] if rp.get("transport") in ("unix", "tcp") else ["unix", "tcp"]
         for kind in kinds:
             # the recorded linearisation first (its entries are taken as the controller's choices), then seeded schedules
-            one_case("replay:" + str(rp.get("scenario")), kind, rp.get("max_connections"), progs, rp["scripts"], list(rp.get("schedule") or []) or None, raises)
+            fb = int(rp.get("arrivals_during_first_bind") or 0)
+            one_case("replay:" + str(rp.get("scenario")), kind, rp.get("max_connections"), progs, rp["scripts"], list(rp.get("schedule") or []) or None, raises, fb)
             for _ in range(6):
-                one_case("replay:" + str(rp.get("scenario")), kind, rp.get("max_connections"), progs, rp["scripts"], None, raises)
+                one_case("replay:" + str(rp.get("scenario")), kind, rp.get("max_connections"), progs, rp["scripts"], None, raises, fb)
     for name, progs, scripts, maxcs, fixed, raises in ([] if _REPLAY is not None else fixed_scenarios()):
         for pid, p in progs.items():
             I.register(pid, p)
         for kind in ("unix", "tcp"):
             for maxc in maxcs:
                 one_case(name, kind, maxc, progs, scripts, fixed if (fixed is not None and maxc is None) else None, raises)
+    # ---- connections arriving during the very first bind of a fresh server (on_serve_start still running)
+    if _REPLAY is None:
+        kvp: dict[int, dict[str, Any]] = {}
+        kv_scripts: list[list[list[Any]]] = []
+        for ci in range(3):
+            put, get = 40 + 2 * ci, 41 + 2 * ci
+            kvp[put] = {"logs": [], "result": {"ok": 0}, "kv": ["put", f"key{ci}", 11 * (ci + 1)]}
+            kvp[get] = {"logs": [["INFO", f"get{ci}", {}]], "result": {"ok": 11 * (ci + 1)}, "kv": ["get", f"key{ci}"]}
+            kv_scripts.append([["unary", put], ["unary", get], [["iterate", "producer", 2, 0, "stop"], ["exchange", "exchange", 2, 2, "close"], ["unary", 1]][ci], ["unary", get]])
+        kvp.update({1: _P_UNARY, 2: _P_STREAM})
+        for pid, p in kvp.items():
+            I.register(pid, p)
+        for kind in ("unix", "tcp"):
+            for maxc in (None, 2, 1) + ((3,) if thorough else ()):
+                for arrivals in (2, 3):
+                    for _ in range(3 if thorough else 1):
+                        one_case("arrivals-during-first-bind", kind, maxc, kvp, kv_scripts, None, (), arrivals)
     n_random = 0 if _REPLAY is not None else (140 if thorough else 36)
     pid0 = 100
     for j in range(n_random):
